@@ -540,7 +540,10 @@ fn cmd_fuzz_asm(args: &[String]) -> i32 {
     let n: usize = arg(args, "--n").map(|s| s.parse().unwrap()).unwrap_or(1000);
     let report_path = arg(args, "--report").expect("--report");
     let mut r = Rng::new(seed ^ 0xc14);
-    let inputs: Vec<Value> = (0..n).map(|_| json!(text::gen_fuzz_input(&mut r))).collect();
+    let mut inputs: Vec<Value> = text::systematic_inputs().into_iter().map(|s| json!(s)).collect();
+    let systematic = inputs.len();
+    inputs.extend((0..n).map(|_| json!(text::gen_fuzz_input(&mut r))));
+    let n = inputs.len();
     let results = run_isolated(&inputs, 5000, text::run_fuzz);
     let mut ok = 0u64;
     let mut err = 0u64;
@@ -565,7 +568,7 @@ fn cmd_fuzz_asm(args: &[String]) -> i32 {
         }
     }
     let samples: Vec<&Value> = inputs.iter().take(3).collect();
-    let report = json!({"inputs": n, "distinct": distinct.len(), "ok": ok, "err": err, "fail": fails.len(), "failures": fails, "samples": samples});
+    let report = json!({"inputs": n, "systematic": systematic, "distinct": distinct.len(), "ok": ok, "err": err, "fail": fails.len(), "failures": fails, "samples": samples});
     std::fs::write(report_path, serde_json::to_string(&report).unwrap()).unwrap();
     println!("fuzz-asm: {n} inputs, {ok} ok, {err} err, {} failing", report["fail"]);
     0
